@@ -23,12 +23,12 @@ def utf16_units(cps):
 
 def tok_units(enc, units, form=None):
     """form: s = std::basic_string, v = pointer + length view into an exactly sized buffer without terminator,
-    z = zero-terminated pointer, x = view into the front of a larger buffer whose next 8 units are an adversarial follower.  When the caller does not care, the form is derived from the content (so that
+    z = zero-terminated pointer, x / y = view into the front of a larger buffer whose next 8 units are an adversarial follower (x: picked by a hash of the content, y: the last unit repeated).  When the caller does not care, the form is derived from the content (so that
     every stream exercises all three argument forms, deterministically)."""
     w = {"b": 2, "c": 2, "h": 4}.get(enc, 8)
     hexs = "".join("%0*X" % (w, u) for u in units)
     if form is None:
-        form = "svzx"[zlib.crc32(hexs.encode()) % 4]
+        form = "svzxy"[zlib.crc32(hexs.encode()) % 5]
         if form == "z" and 0 in units:
             form = "v"
     f = form if form != "s" else ""
